@@ -179,6 +179,15 @@ Theorem C13_update_one_refused_unchanged :
 Proof. exact update_one_refused_unchanged. Qed.
 Print Assumptions C13_update_one_refused_unchanged.
 
+(* read-only queries about the configuration (get_seed_values, get_seeds()[id]) between two updates: answered
+   or refused, no stream changes *)
+Theorem C13_queries_change_nothing :
+  forall (f : name -> Z -> Z -> res) (listed : bool) (l : list entry),
+    fst (do_call f (CQuery listed) l) = l /\
+    (snd (do_call f (CQuery listed) l) = None <-> listed = true).
+Proof. exact query_changes_nothing. Qed.
+Print Assumptions C13_queries_change_nothing.
+
 (* ---------- the pinned tree ---------- *)
 (* hash(str) is a parameter of the interpreter process: the seed is NOT a
    function of (name, original seed, r) alone ... *)
